@@ -6,6 +6,7 @@ import (
 	"fmt"
 	"io"
 	"strings"
+	"sync"
 	"testing"
 	"testing/synctest"
 	"time"
@@ -136,6 +137,14 @@ type c14ServerCase struct {
 	Lines  bool
 }
 
+// c14Seen remembers, per process, what the server answered to a given (mode, offer header):
+// negotiation is a function of the handshake's own inputs, so the same inputs must get
+// the same answer however many other handshakes happened before.
+var (
+	c14SeenMu sync.Mutex
+	c14Seen   = map[string]string{}
+)
+
 type c14Outcome struct {
 	Agreed   bool
 	Fallback bool
@@ -158,6 +167,14 @@ func runC14Server(t fataler, c c14ServerCase) (string, c14Outcome) {
 		return "Accept failed on a valid request: " + err.Error(), out
 	}
 	respVals := sv.W.H.Values("Sec-WebSocket-Extensions")
+	key := fmt.Sprintf("%v|%v|%q", c.Mode, c.Lines, c.Offers)
+	c14SeenMu.Lock()
+	prev, seen := c14Seen[key]
+	c14Seen[key] = fmt.Sprint(respVals)
+	c14SeenMu.Unlock()
+	if seen && prev != fmt.Sprint(respVals) {
+		return fmt.Sprintf("the same offer %q in mode %s was answered %s earlier in this process and %v now: the negotiation depends on other connections' handshakes", c.Offers, modeName(c.Mode), prev, respVals), out
+	}
 	resp := ref.ParseExtensions(respVals)
 	var offerHdr []string
 	if c.Lines {
@@ -326,8 +343,9 @@ func TestC14ServerLists(t *testing.T) {
 // ---- client side ----
 
 type c14ClientCase struct {
-	Mode websocket.CompressionMode
-	Resp string
+	Mode  websocket.CompressionMode
+	Resp  string
+	Lines []string // if non-nil: the response carries one Sec-WebSocket-Extensions line per element
 }
 
 func c14RespVerdict(resp string, mode websocket.CompressionMode) string {
@@ -374,8 +392,11 @@ func runC14Client(t fataler, c c14ClientCase) (string, c14Outcome) {
 	var out c14Outcome
 	e := newEnv(t)
 	defer e.Teardown()
-	cl, err := wsx.Dial(context.Background(), wsx.ClientCfg{Mode: c.Mode, Threshold: 1, RespExt: c.Resp})
+	cl, err := wsx.Dial(context.Background(), wsx.ClientCfg{Mode: c.Mode, Threshold: 1, RespExt: c.Resp, RespExts: c.Lines})
 	e.track(cl.Conn, cl.Peer, cl.Lib)
+	if c.Lines != nil {
+		c.Resp = strings.Join(c.Lines, ", ") // several lines are one list (RFC 6455 section 9.1)
+	}
 	verdict := c14RespVerdict(c.Resp, c.Mode)
 	if err != nil {
 		cl.Peer.CloseWrite(nil)
@@ -423,7 +444,7 @@ func TestC14Client(t *testing.T) {
 		if out.Agreed {
 			oc = "agreed"
 		}
-		rec.Case(out.Asym || !out.Agreed && c.Resp != "", fmt.Sprintf("cli|%s|%s|%s", c.Resp, modeName(c.Mode), oc), "client:"+oc, "client-mode:"+modeName(c.Mode))
+		rec.Case(out.Asym || !out.Agreed && c.Resp != "", fmt.Sprintf("cli|%s|%v|%s|%s", c.Resp, c.Lines, modeName(c.Mode), oc), "client:"+oc, "client-mode:"+modeName(c.Mode))
 		if out.Asym {
 			rec.Class("asymmetric-agreement", 1)
 		}
@@ -449,6 +470,14 @@ func TestC14Client(t *testing.T) {
 			}
 		}
 		one(c14ClientCase{Mode: mode, Resp: "permessage-deflate; client_no_context_takeover; server_no_context_takeover; server_max_window_bits=12"})
+		// the same lists spread over several header lines
+		for _, lines := range [][]string{
+			{"permessage-deflate", "x-other"}, {"x-other", "permessage-deflate"}, {"", "permessage-deflate"}, {"permessage-deflate", ""},
+			{"permessage-deflate; server_no_context_takeover", "permessage-deflate; client_max_window_bits=9"}, {"", "permessage-deflate; client_no_context_takeover"},
+			{"permessage-deflate; client_no_context_takeover"}, {" ", "x-other"},
+		} {
+			one(c14ClientCase{Mode: mode, Lines: lines})
+		}
 	}
 	rec.Exhaustive("all responses with <=2 parameters of the response alphabet x 3 client modes", true)
 }
@@ -540,4 +569,124 @@ func TestC14Regress(t *testing.T) {
 			failCase(t, "C14", c, "D11: %s", msg)
 		}
 	}
+}
+
+// TestC14Interleaved: several connections negotiated one after the other, with different
+// offers and modes, stay open and keep exchanging compressed messages: what a later
+// handshake agrees on must not change what an earlier connection holds.
+func TestC14Interleaved(t *testing.T) {
+	rec := evid.For("C14")
+	type side struct {
+		Client bool
+		Mode   websocket.CompressionMode
+		Ext    string
+	}
+	serverOffers := []string{"permessage-deflate", "permessage-deflate; client_no_context_takeover", "permessage-deflate; server_no_context_takeover", "permessage-deflate; client_no_context_takeover; server_no_context_takeover", "permessage-deflate; client_max_window_bits"}
+	clientResps := []string{"permessage-deflate", "permessage-deflate; client_no_context_takeover", "permessage-deflate; server_no_context_takeover", "permessage-deflate; client_no_context_takeover; server_no_context_takeover"}
+	first := true
+	rapid.Check(t, func(rt *rapid.T) {
+		n := rapid.IntRange(2, 4).Draw(rt, "nConns")
+		sides := make([]side, n)
+		for i := range sides {
+			sides[i].Client = rapid.Bool().Draw(rt, "client")
+			sides[i].Mode = rapid.SampledFrom(c01Modes[1:]).Draw(rt, "mode")
+			if sides[i].Client {
+				sides[i].Ext = rapid.SampledFrom(clientResps).Draw(rt, "resp")
+				if sides[i].Mode == websocket.CompressionNoContextTakeover {
+					sides[i].Ext = clientResps[3]
+				}
+			} else {
+				sides[i].Ext = rapid.SampledFrom(serverOffers).Draw(rt, "offer")
+			}
+		}
+		if first {
+			// the very first case of the process is fixed: a plain takeover agreement, then one
+			// that asks for no takeover on both sides, on servers and on clients (process-wide
+			// negotiation state would still be pristine here)
+			first = false
+			sides = []side{
+				{false, websocket.CompressionContextTakeover, serverOffers[0]},
+				{false, websocket.CompressionContextTakeover, serverOffers[3]},
+				{true, websocket.CompressionContextTakeover, clientResps[0]},
+				{true, websocket.CompressionContextTakeover, clientResps[3]},
+			}
+		}
+		var fail string
+		rapid.SyncTest(rt, func(rt *rapid.T) {
+			e := newEnv(rt)
+			defer e.Teardown()
+			type live struct {
+				lc   *libConn
+				def  *ref.Deflater
+				sent [][]byte
+				k    int
+			}
+			var conns []*live
+			msgs := exchangeMsgs()
+			round := func(l *live, who int) bool {
+				// two messages peer -> library, two library -> peer, continuing this connection's history
+				for j := 0; j < 2; j++ {
+					m := msgs[(l.k+j)%len(msgs)]
+					l.lc.Peer.send(ref.Frame{Fin: true, Opcode: ref.OpText, Rsv1: true, Payload: l.def.Message(m, ref.DVSync)})
+					var got []byte
+					var err error
+					d := e.Call(func() { _, got, err = l.lc.C.Read(context.Background()) })
+					if !within(d, 30*time.Second) || err != nil || !bytes.Equal(got, m) {
+						fail = fmt.Sprintf("connection %d (%+v, agreed %+v): message %d from the peer failed to decode after %d connections had been negotiated: %v", who, sides[who], l.lc.Agreed, l.k+j, len(conns), err)
+						return false
+					}
+					var werr error
+					d = e.Call(func() { werr = l.lc.C.Write(context.Background(), websocket.MessageText, m) })
+					if !within(d, 30*time.Second) || werr != nil {
+						fail = fmt.Sprintf("connection %d: write failed: %v", who, werr)
+						return false
+					}
+					l.sent = append(l.sent, m)
+				}
+				l.k += 2
+				return true
+			}
+			for i, sd := range sides {
+				lc, err := e.open(connSpec{Client: sd.Client, Mode: sd.Mode, Threshold: 1, Ext: sd.Ext})
+				if err != nil {
+					fail = "handshake: " + err.Error()
+					return
+				}
+				lc.C.SetReadLimit(1 << 20)
+				lc.Peer.onFrame = func(f ref.Frame) {
+					if f.Opcode == ref.OpClose {
+						lc.Peer.send(ref.Frame{Fin: true, Opcode: ref.OpClose, Payload: f.Payload})
+					}
+				}
+				lc.Peer.start(e)
+				conns = append(conns, &live{lc: lc, def: ref.NewDeflater(lc.Agreed.SenderTakeover(!sd.Client))})
+				// every connection negotiated so far goes on talking
+				for who, l := range conns {
+					if !round(l, who) {
+						return
+					}
+				}
+				_ = i
+			}
+			for who, l := range conns {
+				d := e.Call(func() { l.lc.C.Close(websocket.StatusNormalClosure, "") })
+				within(d, 30*time.Second)
+				l.lc.Peer.waitEOF(30 * time.Second)
+				sd := sides[who]
+				rep, verr := ref.ValidateStream(l.lc.End.InRecording(), ref.StreamOpts{FromClient: sd.Client, Deflate: l.lc.Agreed.Deflate, Takeover: l.lc.Agreed.SenderTakeover(sd.Client)}, true)
+				if verr != nil {
+					fail = fmt.Sprintf("connection %d (%+v, agreed %+v): what the library sent does not decode under the parameters of ITS OWN handshake: %v", who, sd, l.lc.Agreed, verr)
+					return
+				}
+				if len(rep.Messages) != len(l.sent) {
+					fail = fmt.Sprintf("connection %d: %d of %d messages on the wire", who, len(rep.Messages), len(l.sent))
+					return
+				}
+			}
+		})
+		rec.Case(true, fmt.Sprintf("interleaved|%+v", sides), "interleaved-connections")
+		if fail != "" {
+			rt.Fatalf("C14 interleaved %+v: %s", sides, fail)
+		}
+	})
 }
